@@ -190,7 +190,8 @@ Definition build_self_this_target (st : fstate) (t : string) : string :=
 (* EnterMethodCall *)
 Definition enter_method_call (st : fstate) (callee target : string) (target_is_call : bool) (inner whole : string)
            (args : list string) (has_args : bool) (p : pos4) : fstate :=
-  let tt0 := parse_target_type st target in
+  (* this.m() calls a method of the current class *)
+  let tt0 := if String.eqb target "this" then s_clz st else parse_target_type st target in
   let tt1 := if target_is_call then inner else tt0 in
   let '(full, ctype0) := warp_target_full_type st tt1 in
   let is_super := String.eqb tt1 "super" || String.eqb callee "super" in
@@ -213,6 +214,11 @@ Definition enter_method_call (st : fstate) (callee target : string) (target_is_c
                   (mkPos (q_sl p) (q_sc p) (q_el p) (q_sc p + String.length callee)) in
   add_call_to_current st c.
 
+(* isPlainName: not empty and none of the bytes listed below (brackets, punctuation, operators, quotes, blank) *)
+Definition is_plain_name (t : string) : bool :=
+  negb (String.eqb t "") &&
+  forallb (fun c => negb (existsb (Ascii.eqb c) (chars "()[]{}.,;:+-*/%<>=!&|^~?""' "))) (chars t).
+
 (* EnterCreator (without class body, or with currentMethod.Name == "") *)
 Definition enter_creator (st : fstate) (var : string) (created : list string) (p : pos4) : fstate :=
   match created with
@@ -221,7 +227,8 @@ Definition enter_creator (st : fstate) (var : string) (created : list string) (p
     let declared := negb (String.eqb (mget_d "" (s_localVars st) var) "") ||
                     negb (String.eqb (mget_d "" (s_formals st) var) "") ||
                     negb (String.eqb (mget_d "" (s_mapFields st) var) "") in
-    let st1 := if declared then st
+    (* isPlainName: only a single name is recorded as the variable that receives the object *)
+    let st1 := if declared || negb (is_plain_name var) then st
                else set_tables st (s_mapFields st) (mput (s_localVars st) var name) (s_formals st) in
     let full := fst (warp_target_full_type st1 name) in
     let c := mkCall (remove_target full) "CreatorClass" name "" []
@@ -303,17 +310,18 @@ Definition member_step (st0 : fstate) (m : jmember) : fstate :=
     let i := m_ident m in let d := m_decl m in
     let f := mkFunc (m_name m) (m_ret m) (if m_has_param_list m then map (fun p => mkProp (fst p) (snd p)) (m_params m) else [])
                     [] (s_override st) annots false false []
-                    (mkPos (q_sl d) (q_sc i) (q_el d) (q_sc i + String.length (m_name m))) in
+                    (mkPos (q_sl i) (q_sc i) (q_el d) (q_sc i + String.length (m_name m))) in
     let st1 := if m_has_param_list m then record_params st (m_params m) else st in
     let st2 := update_method_decl st1 f (m_has_param_list m) in
     let st3 := fold_left body_event (m_events m) st2 in
     (* ExitMethodDeclaration *)
     set_current_method st3 empty_func
-  else (* imethod: no annotations copied, Override not recorded, currentMethod not reset *)
-    let d := m_decl m in
+  else (* imethod: no annotations copied, Override not recorded, currentMethod not reset;
+          the position is that of the name, as for a class method *)
+    let i := m_ident m in let d := m_decl m in
     let f := mkFunc (m_name m) (m_ret m) (if m_has_param_list m then map (fun p => mkProp (fst p) (snd p)) (m_params m) else [])
                     [] false [] false false []
-                    (mkPos (q_sl d) (q_sc d) (q_el d) (q_ec d + String.length (m_name m))) in
+                    (mkPos (q_sl i) (q_sc i) (q_el d) (q_sc i + String.length (m_name m))) in
     let st1 := if m_has_param_list m then record_params st (m_params m) else st in
     let st2 := update_method_decl st1 f (m_has_param_list m) in
     fold_left body_event (m_events m) st2.
